@@ -70,7 +70,7 @@ def run_sharded(ctx, cmd, cases, shards, extra_args=None, timeout=1700, tag=""):
 
 def mismatches(txt):
     out = {}
-    for m in re.finditer(r'<<"MISMATCH", (\d+), "([^"]+)">>', txt):
+    for m in re.finditer(r'<<\s*"MISMATCH",\s*(\d+),\s*"([^"]+)"\s*>>', txt):
         out.setdefault(int(m.group(1)), set()).add(m.group(2))
     return out
 
